@@ -138,6 +138,241 @@ theorem Lit.lexBytes (l : Lit) (hok : l.ok = true) (hty : l.ty = .bytes) (rest :
   | ip6 a => cases hty
   | ip6std a => cases hty
 
+/-! ### byte-string sets: `in { "…" r#"…"# … }` -/
+
+/-- one item of a `Bytes` set: a quoted or raw literal and the layout written after it -/
+def bytesEntry (it : Lit × Input) : BraceEntry BytesLit :=
+  { text := it.1.txt, ws := it.2, val := it.1.bytes }
+
+/-- the literal is well-formed (`Lit.ok`), quoted or raw, and the layout is layout -/
+def bytesItemOk (it : Lit × Input) : Bool := it.1.ok && it.1.ty == .bytes && Layout it.2
+
+def bytesItemsTxt (items : List (Lit × Input)) : List Char :=
+  renderBraceBody (items.map bytesEntry)
+
+/-- the byte strings in the order written (`RhsValues::Bytes`) -/
+def bytesItemsVal (items : List (Lit × Input)) : List BytesLit :=
+  (items.map bytesEntry).map (·.val)
+
+def bytesItemsSep (items : List (Lit × Input)) : Bool := WfModel.sepOk (items.map bytesEntry)
+
+theorem bytes_itemHeadOk (l : Lit) (hty : l.ty = .bytes) : itemHeadOk l.txt = true := by
+  cases l with
+  | quoted items => show (!isSpace '"' && '"' != '}') = true; decide
+  | raw k body => show (!isSpace 'r' && 'r' != '}') = true; decide
+  | int f v => cases hty
+  | ip4 a => cases hty
+  | ip6 a => cases hty
+  | ip6std a => cases hty
+
+/-- **`RhsValues::lex_with(_, Type::Bytes)` on a written set** -/
+theorem lexBrace_bytesItems (items : List (Lit × Input))
+    (hok : items.all bytesItemOk = true) (hsep : bytesItemsSep items = true) {ws₀ : Input}
+    (h₀ : Layout ws₀ = true) (rest : Input) :
+    lexBrace WfModel.lexBytes ('{' :: (ws₀ ++ (bytesItemsTxt items ++ '}' :: rest))) =
+      .ok (bytesItemsVal items, rest) := by
+  simp only [List.all_eq_true, bytesItemOk, Bool.and_eq_true, beq_iff_eq] at hok
+  exact lexBrace_render WfModel.lexBytes (fun _ => true) (fun _ _ => rfl)
+    (items.map bytesEntry) rest ws₀ (layout_iff.mp h₀)
+    (by
+      intro e he
+      simp only [List.mem_map] at he
+      obtain ⟨it, hit, rfl⟩ := he
+      exact layout_iff.mp (hok it hit).2)
+    (by
+      intro e he
+      simp only [List.mem_map] at he
+      obtain ⟨it, hit, rfl⟩ := he
+      exact bytes_itemHeadOk it.1 (hok it hit).1.2)
+    hsep
+    (by
+      intro e he tail _
+      simp only [List.mem_map] at he
+      obtain ⟨it, hit, rfl⟩ := he
+      exact it.1.lexBytes (hok it hit).1.1 (hok it hit).1.2 tail)
+
+/-! ### address sets: `in { a.b.c.d  a.b.c.d..e.f.g.h  a.b.c.d/len … }` -/
+
+/-- one item of an `Ip` set as written (IPv4 dotted quads, or IPv6 in full form): a single address,
+an explicit range `a..b`, a CIDR block `a/len`; and the layout after it -/
+inductive IpItem
+  | single (a : Nat) (ws : Input)
+  | range (a b : Nat) (ws : Input)
+  | cidr (a len : Nat) (ws : Input)
+  /-- the same three for IPv6 addresses written in full (eight groups, `v6full`) -/
+  | single6 (a : Nat) (ws : Input)
+  | range6 (a b : Nat) (ws : Input)
+  | cidr6 (a len : Nat) (ws : Input)
+deriving DecidableEq, Repr
+
+/-- text, following layout and value (`IpRange`): a single address is the `/32` block (`cidr`'s
+`IpCidr::from_str` without `/`), `a..b` the explicit range, `a/len` the block -/
+def IpItem.entry : IpItem → BraceEntry IpRangeLit
+  | .single a ws => { text := dotted a, ws := ws, val := .cidr false a 32 }
+  | .range a b ws =>
+    { text := dotted a ++ ('.' :: '.' :: dotted b), ws := ws, val := .explicit false a b }
+  | .cidr a len ws =>
+    { text := dotted a ++ ('/' :: digits 10 len), ws := ws, val := .cidr false a len }
+  | .single6 a ws => { text := v6full a, ws := ws, val := .cidr true a 128 }
+  | .range6 a b ws =>
+    { text := v6full a ++ ('.' :: '.' :: v6full b), ws := ws, val := .explicit true a b }
+  | .cidr6 a len ws =>
+    { text := v6full a ++ ('/' :: digits 10 len), ws := ws, val := .cidr true a len }
+
+/-- addresses fit 32 bits; `a ≤ b` in a range; `len ≤ 32` and no host bit set in a block;
+layout is layout -/
+def IpItem.ok : IpItem → Bool
+  | .single a ws => decide (a < 2 ^ 32) && Layout ws
+  | .range a b ws => decide (a < 2 ^ 32) && decide (b < 2 ^ 32) && decide (a ≤ b) && Layout ws
+  | .cidr a len ws =>
+    decide (a < 2 ^ 32) && decide (len ≤ 32) && decide (a % 2 ^ (32 - len) = 0) && Layout ws
+  | .single6 a ws => decide (a < 2 ^ 128) && Layout ws
+  | .range6 a b ws =>
+    decide (a < 2 ^ 128) && decide (b < 2 ^ 128) && decide (a ≤ b) && Layout ws
+  | .cidr6 a len ws =>
+    decide (a < 2 ^ 128) && decide (len ≤ 128) && decide (a % 2 ^ (128 - len) = 0) && Layout ws
+
+def ipItemsTxt (items : List IpItem) : List Char := renderBraceBody (items.map IpItem.entry)
+
+/-- the ranges in the order written (`RhsValues::Ip`) -/
+def ipItemsVal (items : List IpItem) : List IpRangeLit := (items.map IpItem.entry).map (·.val)
+
+def ipItemsSep (items : List IpItem) : Bool := WfModel.sepOk (items.map IpItem.entry)
+
+theorem dotted_itemHeadOk (a : Nat) (t : List Char) : itemHeadOk (dotted a ++ t) = true := by
+  rw [dotted_eq]
+  obtain ⟨d, tl, he, hd, _⟩ := digits_head (by omega : 2 ≤ 10) (a / 16777216 % 256)
+  rw [he]
+  exact digitChar_head_ok d (by omega)
+
+theorem v6full_itemHeadOk (a : Nat) (t : List Char) : itemHeadOk (v6full a ++ t) = true := by
+  rw [v6full_eq]
+  obtain ⟨d, tl, he, hd, _⟩ := digits_head (by omega : 2 ≤ 16) (a / 2 ^ 112 % 65536)
+  simp only [Nat.reducePow] at he
+  rw [he]
+  exact digitChar_head_ok d (by omega)
+
+/-- a full IPv6 address alone is the `/128` block -/
+theorem cidr_v6full_bare {a : Nat} {rest : Input} (ha : a < 2 ^ 128)
+    (hr : headNot isIpChar rest = true) :
+    lexIpRange (v6full a ++ rest) = .ok (.cidr true a 128, rest) := by
+  have hnd : ∀ c ∈ v6full a, c ≠ '.' := fun c hc => (v6full_no_dot_slash a c hc).1
+  have hns : ∀ c ∈ v6full a, c ≠ '/' := fun c hc => (v6full_no_dot_slash a c hc).2
+  have hfd : findDotDot (v6full a) 0 = none := by
+    have := findDotDot_nodot hnd [] 0
+    rw [List.append_nil] at this
+    rw [this]; rfl
+  refine lexIpRange_parseCidr_some (v6full_all_ipchar a) (v6full_ne_nil a) hr hfd ?_
+  unfold parseCidr
+  rw [rfindSlash_none hns]
+  simp only [parseCidrAddr_v6full ha]
+
+theorem IpItem.headOk (it : IpItem) : itemHeadOk it.entry.text = true := by
+  cases it with
+  | single a ws => simpa [IpItem.entry] using dotted_itemHeadOk a []
+  | range a b ws => exact dotted_itemHeadOk a _
+  | cidr a len ws => exact dotted_itemHeadOk a _
+  | single6 a ws => simpa [IpItem.entry] using v6full_itemHeadOk a []
+  | range6 a b ws => exact v6full_itemHeadOk a _
+  | cidr6 a len ws => exact v6full_itemHeadOk a _
+
+theorem IpItem.lex (it : IpItem) (hok : it.ok = true) (tail : Input)
+    (ht : headNot isIpChar tail = true) :
+    lexIpRange (it.entry.text ++ tail) = .ok (it.entry.val, tail) := by
+  cases it with
+  | single a ws =>
+    simp only [IpItem.ok, Bool.and_eq_true, decide_eq_true_eq] at hok
+    exact cidr_dotted_bare hok.1 ht
+  | range a b ws =>
+    simp only [IpItem.ok, Bool.and_eq_true, decide_eq_true_eq] at hok
+    have := iprange_dotted_ok (rest := tail) hok.1.1.1 hok.1.1.2 hok.1.2 ht
+    simpa [IpItem.entry, List.append_assoc] using this
+  | cidr a len ws =>
+    simp only [IpItem.ok, Bool.and_eq_true, decide_eq_true_eq] at hok
+    have := cidr_dotted_ok (rest := tail) hok.1.1.1 hok.1.1.2 hok.1.2 ht
+    simpa [IpItem.entry, List.append_assoc] using this
+  | single6 a ws =>
+    simp only [IpItem.ok, Bool.and_eq_true, decide_eq_true_eq] at hok
+    exact cidr_v6full_bare hok.1 ht
+  | range6 a b ws =>
+    simp only [IpItem.ok, Bool.and_eq_true, decide_eq_true_eq] at hok
+    have := iprange_v6full_ok (rest := tail) hok.1.1.1 hok.1.1.2 hok.1.2 ht
+    simpa [IpItem.entry, List.append_assoc] using this
+  | cidr6 a len ws =>
+    simp only [IpItem.ok, Bool.and_eq_true, decide_eq_true_eq] at hok
+    have := cidr_v6full_ok (rest := tail) hok.1.1.1 hok.1.1.2 hok.1.2 ht
+    simpa [IpItem.entry, List.append_assoc] using this
+
+theorem IpItem.ws_layout (it : IpItem) (hok : it.ok = true) :
+    ∀ c ∈ it.entry.ws, isSpace c = true := by
+  cases it <;>
+    (simp only [IpItem.ok, Bool.and_eq_true] at hok; exact layout_iff.mp hok.2)
+
+theorem noIpHead_of_space_or_close (t : Input) (h : SpaceOrCloseHead t = true) :
+    headNot isIpChar t = true := by
+  cases t with
+  | nil => cases h
+  | cons c r =>
+    simp only [SpaceOrCloseHead, Bool.or_eq_true, beq_iff_eq] at h
+    have hc : c = ' ' ∨ c = '\r' ∨ c = '\n' ∨ c = '}' := by
+      rcases h with h | h
+      · simp only [isSpace, Bool.or_eq_true, decide_eq_true_eq] at h
+        rcases h with (h | h) | h
+        · exact Or.inl h
+        · exact Or.inr (Or.inl h)
+        · exact Or.inr (Or.inr (Or.inl h))
+      · exact Or.inr (Or.inr (Or.inr h))
+    rcases hc with rfl | rfl | rfl | rfl <;> exact headNot_cons (by decide)
+
+/-- **`RhsValues::lex_with(_, Type::Ip)` on a written set** -/
+theorem lexBrace_ipItems (items : List IpItem) (hok : items.all IpItem.ok = true)
+    (hsep : ipItemsSep items = true) {ws₀ : Input} (h₀ : Layout ws₀ = true) (rest : Input) :
+    lexBrace lexIpRange ('{' :: (ws₀ ++ (ipItemsTxt items ++ '}' :: rest))) =
+      .ok (ipItemsVal items, rest) := by
+  simp only [List.all_eq_true] at hok
+  exact lexBrace_render lexIpRange (fun t => headNot isIpChar t) noIpHead_of_space_or_close
+    (items.map IpItem.entry) rest ws₀ (layout_iff.mp h₀)
+    (by
+      intro e he
+      simp only [List.mem_map] at he
+      obtain ⟨it, hit, rfl⟩ := he
+      exact it.ws_layout (hok it hit))
+    (by
+      intro e he
+      simp only [List.mem_map] at he
+      obtain ⟨it, _, rfl⟩ := he
+      exact it.headOk)
+    hsep
+    (by
+      intro e he tail ht
+      simp only [List.mem_map] at he
+      obtain ⟨it, hit, rfl⟩ := he
+      exact it.lex (hok it hit) tail ht)
+
+/-! ### list names: `in $name` -/
+
+/-- `ListName`: a non-empty run of `a-z 0-9 _ .` that neither begins nor ends with `.` -/
+def listNameOk (name : List Char) : Bool :=
+  !name.isEmpty && name.all isListNameChar && name.head? != some '.' &&
+    name.getLast? != some '.'
+
+/-- **`impl Lex for ListName`** on `$name` before a continuation that does not extend the run -/
+theorem lexListName_name {name : List Char} (hok : listNameOk name = true) (rest : Input)
+    (hr : headNot isListNameChar rest = true) :
+    lexListName ('$' :: (name ++ rest)) = .ok (name, rest) := by
+  simp only [listNameOk, Bool.and_eq_true, Bool.not_eq_true', bne_iff_ne, ne_eq,
+    List.all_eq_true] at hok
+  obtain ⟨⟨⟨hne, hall⟩, hhd⟩, hlast⟩ := hok
+  unfold lexListName
+  have e : expect ('$' :: (name ++ rest)) "$" = some (name ++ rest) := by
+    show stripPrefix ('$' :: _) ['$'] = _
+    simp [stripPrefix]
+  simp only [e, spanWhile_run isListNameChar name rest hall hr, hne]
+  simp [hhd, hlast]
+
+theorem stop_noListName {tight : Bool} {rest : Input} (h : Stop tight rest = true) :
+    headNot isListNameChar rest = true := stop_headNot h _ (by decide)
+
 /-! ### syntax of tails -/
 
 inductive Tail
@@ -149,7 +384,19 @@ inductive Tail
   | inInts (ws₁ ws₂ ws₀ : Input) (items : List IntItem)
   /-- `ws₁ contains ws₂ lit` (quoted or raw) -/
   | contains (ws₁ ws₂ : Input) (lit : Lit)
+  /-- `ws₁ in ws₂ { ws₀ items }` with byte-string items (each a literal and the layout after it) -/
+  | inBytes (ws₁ ws₂ ws₀ : Input) (items : List (Lit × Input))
+  /-- `ws₁ in ws₂ { ws₀ items }` with address items -/
+  | inIps (ws₁ ws₂ ws₀ : Input) (items : List IpItem)
+  /-- `ws₁ & ws₂ v` (`sym`) / `ws₁ bitwise_and ws₂ v`, the integer written in `form` -/
+  | bitAnd (ws₁ : Input) (sym : Bool) (ws₂ : Input) (form : IntForm) (v : Int)
+  /-- `ws₁ in ws₂ $name` on a left-hand side of type `ty`; `list` is the index of the list
+  registered for `ty` in the scheme (`Tail.schemeOk`) -/
+  | inList (ws₁ ws₂ : Input) (ty : Ty) (list : Nat) (name : List Char)
 deriving DecidableEq, Repr
+
+/-- the two spellings of `IntOp::BitwiseAnd` -/
+def andAlias (sym : Bool) : String := if sym then "&" else "bitwise_and"
 
 def Tail.txt : Tail → List Char
   | .isTrue => []
@@ -157,6 +404,12 @@ def Tail.txt : Tail → List Char
   | .inInts ws₁ ws₂ ws₀ items =>
     ws₁ ++ ("in".toList ++ (ws₂ ++ ('{' :: (ws₀ ++ (itemsTxt items ++ ['}'])))))
   | .contains ws₁ ws₂ lit => ws₁ ++ ("contains".toList ++ (ws₂ ++ lit.txt))
+  | .inBytes ws₁ ws₂ ws₀ items =>
+    ws₁ ++ ("in".toList ++ (ws₂ ++ ('{' :: (ws₀ ++ (bytesItemsTxt items ++ ['}'])))))
+  | .inIps ws₁ ws₂ ws₀ items =>
+    ws₁ ++ ("in".toList ++ (ws₂ ++ ('{' :: (ws₀ ++ (ipItemsTxt items ++ ['}'])))))
+  | .bitAnd ws₁ sym ws₂ form v => ws₁ ++ ((andAlias sym).toList ++ (ws₂ ++ renderInt form v))
+  | .inList ws₁ ws₂ _ _ name => ws₁ ++ ("in".toList ++ (ws₂ ++ ('$' :: name)))
 
 /-- the type the left-hand side must have -/
 def Tail.ty : Tail → Ty
@@ -164,6 +417,10 @@ def Tail.ty : Tail → Ty
   | .ord _ _ _ _ lit => lit.ty
   | .inInts _ _ _ _ => .int
   | .contains _ _ _ => .bytes
+  | .inBytes _ _ _ _ => .bytes
+  | .inIps _ _ _ _ => .ip
+  | .bitAnd _ _ _ _ _ => .int
+  | .inList _ _ ty _ _ => ty
 
 /-- the `ComparisonOpExpr` -/
 def Tail.op : Tail → CmpOp
@@ -171,6 +428,10 @@ def Tail.op : Tail → CmpOp
   | .ord _ op _ _ lit => .ordering op lit.val
   | .inInts _ _ _ items => .oneOf (.int (itemsVal items))
   | .contains _ _ lit => .contains lit.bytes
+  | .inBytes _ _ _ items => .oneOf (.bytes (bytesItemsVal items))
+  | .inIps _ _ _ items => .oneOf (.ip (ipItemsVal items))
+  | .bitAnd _ _ _ _ v => .bitAnd v
+  | .inList _ _ _ list name => .inList list name
 
 /-- side conditions local to the tail -/
 def Tail.ok : Tail → Bool
@@ -179,15 +440,32 @@ def Tail.ok : Tail → Bool
   | .inInts ws₁ ws₂ ws₀ items =>
     Layout ws₁ && Layout ws₂ && Layout ws₀ && items.all IntItem.ok && itemsSep items
   | .contains ws₁ ws₂ lit => Layout ws₁ && Layout ws₂ && lit.ok && lit.ty == .bytes
+  | .inBytes ws₁ ws₂ ws₀ items =>
+    Layout ws₁ && Layout ws₂ && Layout ws₀ && items.all bytesItemOk && bytesItemsSep items
+  | .inIps ws₁ ws₂ ws₀ items =>
+    Layout ws₁ && Layout ws₂ && Layout ws₀ && items.all IpItem.ok && ipItemsSep items
+  | .bitAnd ws₁ _ ws₂ form v => Layout ws₁ && Layout ws₂ && form.admits v && inI64 v
+  | .inList ws₁ ws₂ ty _ name =>
+    Layout ws₁ && Layout ws₂ && listNameOk name && (ty == .int || ty == .ip || ty == .bytes)
 
-/-- **may the tail be glued to a bare NAME?** A symbolic operator may (`i==5`); a word operator
-needs layout before it (`ieq 5`, `iin {1}` are identifiers). After an index suffix `]` nothing
-is needed (`a[0]eq 5`): see `CAtom.ok`. -/
+/-- the side condition on the SCHEME: for `in $name` the scheme has a list registered for the
+left-hand side's type, and `list` is its index (`Scheme::get_list`); nothing for the others -/
+def Tail.schemeOk (s : Scheme) : Tail → Bool
+  | .inList _ _ ty list _ => s.getList ty == some list
+  | _ => true
+
+/-- **may the tail be glued to a bare NAME?** A symbolic operator may (`i==5`, `i&1`); a word
+operator needs layout before it (`ieq 5`, `iin {1}` are identifiers). After an index suffix `]`
+nothing is needed (`a[0]eq 5`): see `CAtom.ok`. -/
 def Tail.sepFromName : Tail → Bool
   | .isTrue => true
   | .ord ws₁ _ sym _ _ => sym || !ws₁.isEmpty
   | .inInts ws₁ _ _ _ => !ws₁.isEmpty
   | .contains ws₁ _ _ => !ws₁.isEmpty
+  | .inBytes ws₁ _ _ _ => !ws₁.isEmpty
+  | .inIps ws₁ _ _ _ => !ws₁.isEmpty
+  | .bitAnd ws₁ sym _ _ _ => sym || !ws₁.isEmpty
+  | .inList ws₁ _ _ _ _ => !ws₁.isEmpty
 
 /-! ### `lex_with_lhs`, by its lexing steps, for any left-hand side without `[*]` -/
 
@@ -234,6 +512,157 @@ theorem cmpWithLhs_contains_steps (env : PEnv) (lhs : IExpr)
   unfold cmpWithLhs
   simp [hmec, Ty.next, e1, e2, e3, e4]
 
+theorem cmpWithLhs_inBytes_steps (env : PEnv) (lhs : IExpr)
+    (hmec : mapEachCount lhs.indexes = 0) (vs : List BytesLit)
+    (input afterLayout afterOp set rest : Input)
+    (e1 : skipSpace input = afterLayout)
+    (e2 : lexEnum comparisonOps afterLayout = some (CompOp.in_, afterOp))
+    (e3 : skipSpace afterOp = set)
+    (e4 : expect set "$" = none)
+    (e5 : lexBrace WfModel.lexBytes set = .ok (vs, rest)) :
+    cmpWithLhs env lhs .bytes input =
+      .ok ({ node := .comparison lhs (.oneOf (.bytes vs)), ty := .bool }, rest) := by
+  unfold cmpWithLhs
+  simp [hmec, Ty.next, e1, e2, e3, e4, e5, lexRhsVals, Except.map]
+
+theorem cmpWithLhs_inIps_steps (env : PEnv) (lhs : IExpr)
+    (hmec : mapEachCount lhs.indexes = 0) (vs : List IpRangeLit)
+    (input afterLayout afterOp set rest : Input)
+    (e1 : skipSpace input = afterLayout)
+    (e2 : lexEnum comparisonOps afterLayout = some (CompOp.in_, afterOp))
+    (e3 : skipSpace afterOp = set)
+    (e4 : expect set "$" = none)
+    (e5 : lexBrace lexIpRange set = .ok (vs, rest)) :
+    cmpWithLhs env lhs .ip input =
+      .ok ({ node := .comparison lhs (.oneOf (.ip vs)), ty := .bool }, rest) := by
+  unfold cmpWithLhs
+  simp [hmec, Ty.next, e1, e2, e3, e4, e5, lexRhsVals, Except.map]
+
+theorem cmpWithLhs_bitAnd_steps (env : PEnv) (lhs : IExpr)
+    (hmec : mapEachCount lhs.indexes = 0) (v : Int)
+    (input afterLayout afterOp lit rest : Input)
+    (e1 : skipSpace input = afterLayout)
+    (e2 : lexEnum comparisonOps afterLayout = some (CompOp.bitAnd, afterOp))
+    (e3 : skipSpace afterOp = lit)
+    (e4 : lexInt lit = .ok (v, rest)) :
+    cmpWithLhs env lhs .int input =
+      .ok ({ node := .comparison lhs (.bitAnd v), ty := .bool }, rest) := by
+  unfold cmpWithLhs
+  simp [hmec, Ty.next, e1, e2, e3, e4]
+
+theorem cmpWithLhs_inList_steps (env : PEnv) (lhs : IExpr)
+    (hmec : mapEachCount lhs.indexes = 0) (ty : Ty) (hty : ty = .int ∨ ty = .ip ∨ ty = .bytes)
+    (l : Nat) (name : List Char) (input afterLayout afterOp set afterDollar rest : Input)
+    (e1 : skipSpace input = afterLayout)
+    (e2 : lexEnum comparisonOps afterLayout = some (CompOp.in_, afterOp))
+    (e3 : skipSpace afterOp = set)
+    (e4 : expect set "$" = some afterDollar)
+    (e5 : lexListName set = .ok (name, rest))
+    (e6 : env.scheme.getList ty = some l) :
+    cmpWithLhs env lhs ty input =
+      .ok ({ node := .comparison lhs (.inList l name), ty := .bool }, rest) := by
+  unfold cmpWithLhs
+  rcases hty with rfl | rfl | rfl <;>
+    simp [hmec, Ty.next, e1, e2, e3, e4, e5, e6]
+
+/-! ### the same steps for ANY left-hand side (also with `[*]`: the result is `Array(Bool)`) -/
+
+theorem cmpWithLhs_isTrueG (env : PEnv) (lhs : IExpr)
+    (rest : Input) :
+    cmpWithLhs env lhs .bool rest =
+      .ok ({ node := .comparison lhs .isTrue, ty := if mapEachCount lhs.indexes > 0 then .array .bool else .bool }, rest) := by
+  simp [cmpWithLhs]
+
+theorem cmpWithLhs_ord_stepsG (env : PEnv) (lhs : IExpr)
+    (ty : Ty) (hty : ty = .int ∨ ty = .ip ∨ ty = .bytes) (op : OrdOp) (v : RhsVal)
+    (input afterLayout afterOp lit rest : Input)
+    (e1 : skipSpace input = afterLayout)
+    (e2 : lexEnum comparisonOps afterLayout = some (CompOp.ord op, afterOp))
+    (e3 : skipSpace afterOp = lit)
+    (e4 : lexRhsVal ty lit = some (.ok (v, rest))) :
+    cmpWithLhs env lhs ty input =
+      .ok ({ node := .comparison lhs (.ordering op v), ty := if mapEachCount lhs.indexes > 0 then .array .bool else .bool }, rest) := by
+  unfold cmpWithLhs
+  rcases hty with rfl | rfl | rfl <;>
+    simp [Ty.next, e1, e2, e3, e4]
+
+theorem cmpWithLhs_in_stepsG (env : PEnv) (lhs : IExpr)
+    (vs : List (Int × Int)) (input afterLayout afterOp set rest : Input)
+    (e1 : skipSpace input = afterLayout)
+    (e2 : lexEnum comparisonOps afterLayout = some (CompOp.in_, afterOp))
+    (e3 : skipSpace afterOp = set)
+    (e4 : expect set "$" = none)
+    (e5 : lexBrace lexIntRange set = .ok (vs, rest)) :
+    cmpWithLhs env lhs .int input =
+      .ok ({ node := .comparison lhs (.oneOf (.int vs)), ty := if mapEachCount lhs.indexes > 0 then .array .bool else .bool }, rest) := by
+  unfold cmpWithLhs
+  simp [Ty.next, e1, e2, e3, e4, e5, lexRhsVals, Except.map]
+
+theorem cmpWithLhs_contains_stepsG (env : PEnv) (lhs : IExpr)
+    (b : BytesLit)
+    (input afterLayout afterOp lit rest : Input)
+    (e1 : skipSpace input = afterLayout)
+    (e2 : lexEnum comparisonOps afterLayout = some (CompOp.contains, afterOp))
+    (e3 : skipSpace afterOp = lit)
+    (e4 : WfModel.lexBytes lit = .ok (b, rest)) :
+    cmpWithLhs env lhs .bytes input =
+      .ok ({ node := .comparison lhs (.contains b), ty := if mapEachCount lhs.indexes > 0 then .array .bool else .bool }, rest) := by
+  unfold cmpWithLhs
+  simp [Ty.next, e1, e2, e3, e4]
+
+theorem cmpWithLhs_inBytes_stepsG (env : PEnv) (lhs : IExpr)
+    (vs : List BytesLit)
+    (input afterLayout afterOp set rest : Input)
+    (e1 : skipSpace input = afterLayout)
+    (e2 : lexEnum comparisonOps afterLayout = some (CompOp.in_, afterOp))
+    (e3 : skipSpace afterOp = set)
+    (e4 : expect set "$" = none)
+    (e5 : lexBrace WfModel.lexBytes set = .ok (vs, rest)) :
+    cmpWithLhs env lhs .bytes input =
+      .ok ({ node := .comparison lhs (.oneOf (.bytes vs)), ty := if mapEachCount lhs.indexes > 0 then .array .bool else .bool }, rest) := by
+  unfold cmpWithLhs
+  simp [Ty.next, e1, e2, e3, e4, e5, lexRhsVals, Except.map]
+
+theorem cmpWithLhs_inIps_stepsG (env : PEnv) (lhs : IExpr)
+    (vs : List IpRangeLit)
+    (input afterLayout afterOp set rest : Input)
+    (e1 : skipSpace input = afterLayout)
+    (e2 : lexEnum comparisonOps afterLayout = some (CompOp.in_, afterOp))
+    (e3 : skipSpace afterOp = set)
+    (e4 : expect set "$" = none)
+    (e5 : lexBrace lexIpRange set = .ok (vs, rest)) :
+    cmpWithLhs env lhs .ip input =
+      .ok ({ node := .comparison lhs (.oneOf (.ip vs)), ty := if mapEachCount lhs.indexes > 0 then .array .bool else .bool }, rest) := by
+  unfold cmpWithLhs
+  simp [Ty.next, e1, e2, e3, e4, e5, lexRhsVals, Except.map]
+
+theorem cmpWithLhs_bitAnd_stepsG (env : PEnv) (lhs : IExpr)
+    (v : Int)
+    (input afterLayout afterOp lit rest : Input)
+    (e1 : skipSpace input = afterLayout)
+    (e2 : lexEnum comparisonOps afterLayout = some (CompOp.bitAnd, afterOp))
+    (e3 : skipSpace afterOp = lit)
+    (e4 : lexInt lit = .ok (v, rest)) :
+    cmpWithLhs env lhs .int input =
+      .ok ({ node := .comparison lhs (.bitAnd v), ty := if mapEachCount lhs.indexes > 0 then .array .bool else .bool }, rest) := by
+  unfold cmpWithLhs
+  simp [Ty.next, e1, e2, e3, e4]
+
+theorem cmpWithLhs_inList_stepsG (env : PEnv) (lhs : IExpr)
+    (ty : Ty) (hty : ty = .int ∨ ty = .ip ∨ ty = .bytes)
+    (l : Nat) (name : List Char) (input afterLayout afterOp set afterDollar rest : Input)
+    (e1 : skipSpace input = afterLayout)
+    (e2 : lexEnum comparisonOps afterLayout = some (CompOp.in_, afterOp))
+    (e3 : skipSpace afterOp = set)
+    (e4 : expect set "$" = some afterDollar)
+    (e5 : lexListName set = .ok (name, rest))
+    (e6 : env.scheme.getList ty = some l) :
+    cmpWithLhs env lhs ty input =
+      .ok ({ node := .comparison lhs (.inList l name), ty := if mapEachCount lhs.indexes > 0 then .array .bool else .bool }, rest) := by
+  unfold cmpWithLhs
+  rcases hty with rfl | rfl | rfl <;>
+    simp [Ty.next, e1, e2, e3, e4, e5, e6]
+
 /-! ### operator words -/
 
 theorem lexEnum_in (x : Input) : lexEnum comparisonOps ("in".toList ++ x) = some (CompOp.in_, x) :=
@@ -243,6 +672,22 @@ theorem lexEnum_contains (x : Input) :
     lexEnum comparisonOps ("contains".toList ++ x) = some (CompOp.contains, x) :=
   comparisonOps_complete ("contains", .contains) (by decide) x
     (fun h => by rcases h with h | h <;> exact absurd h (by decide))
+
+theorem lexEnum_andAlias (sym : Bool) (x : Input) :
+    lexEnum comparisonOps ((andAlias sym).toList ++ x) = some (CompOp.bitAnd, x) := by
+  cases sym
+  · exact comparisonOps_complete ("bitwise_and", .bitAnd) (by decide) x
+      (fun h => by rcases h with h | h <;> exact absurd h (by decide))
+  · exact comparisonOps_complete ("&", .bitAnd) (by decide) x
+      (fun h => by rcases h with h | h <;> exact absurd h (by decide))
+
+/-- first character of a spelling of `bitwise_and` -/
+theorem andAlias_head (sym : Bool) :
+    ∃ c cs, (andAlias sym).toList = c :: cs ∧ isSpace c = false ∧ c ≠ '(' ∧ c ≠ '[' ∧
+      (sym = true → isIdentChar c = false ∧ c ≠ '.') := by
+  cases sym
+  · exact ⟨'b', _, rfl, by decide, by decide, by decide, fun h => by cases h⟩
+  · exact ⟨'&', _, rfl, by decide, by decide, by decide, fun _ => ⟨by decide, by decide⟩⟩
 
 /-- first character of an ordering spelling, with everything the atoms need of it -/
 theorem ordAlias_head' (op : OrdOp) (sym : Bool) :
@@ -288,6 +733,39 @@ theorem Tail.shape (t : Tail) (hok : t.ok = true) (hne : t ≠ .isTrue) (rest : 
     · intro hsep hnil
       subst hnil
       simp [Tail.sepFromName] at hsep
+  | inBytes ws₁ ws₂ ws₀ items =>
+    simp only [Tail.ok, Bool.and_eq_true] at hok
+    refine ⟨ws₁, 'i', 'n' :: (ws₂ ++ '{' :: (ws₀ ++ (bytesItemsTxt items ++ '}' :: rest))), ?_,
+      hok.1.1.1.1, by decide, by decide, by decide, ?_⟩
+    · simp only [Tail.txt, List.append_assoc, List.cons_append, List.nil_append]; rfl
+    · intro hsep hnil
+      subst hnil
+      simp [Tail.sepFromName] at hsep
+  | inIps ws₁ ws₂ ws₀ items =>
+    simp only [Tail.ok, Bool.and_eq_true] at hok
+    refine ⟨ws₁, 'i', 'n' :: (ws₂ ++ '{' :: (ws₀ ++ (ipItemsTxt items ++ '}' :: rest))), ?_,
+      hok.1.1.1.1, by decide, by decide, by decide, ?_⟩
+    · simp only [Tail.txt, List.append_assoc, List.cons_append, List.nil_append]; rfl
+    · intro hsep hnil
+      subst hnil
+      simp [Tail.sepFromName] at hsep
+  | bitAnd ws₁ sym ws₂ form v =>
+    simp only [Tail.ok, Bool.and_eq_true] at hok
+    obtain ⟨c, cs, hal, hs, hp, hb, hid⟩ := andAlias_head sym
+    refine ⟨ws₁, c, cs ++ (ws₂ ++ renderInt form v) ++ rest, ?_, hok.1.1.1, hs, hp, hb, ?_⟩
+    · simp [Tail.txt, hal, List.append_assoc]
+    · intro hsep hnil
+      subst hnil
+      simp only [Tail.sepFromName, List.isEmpty_nil, Bool.not_true, Bool.or_false] at hsep
+      exact hid hsep
+  | inList ws₁ ws₂ ty l name =>
+    simp only [Tail.ok, Bool.and_eq_true] at hok
+    refine ⟨ws₁, 'i', 'n' :: (ws₂ ++ '$' :: (name ++ rest)), ?_,
+      hok.1.1.1, by decide, by decide, by decide, ?_⟩
+    · simp only [Tail.txt, List.append_assoc, List.cons_append, List.nil_append]; rfl
+    · intro hsep hnil
+      subst hnil
+      simp [Tail.sepFromName] at hsep
 
 theorem layout_head_space {w : Char} {ws : Input} (h : Layout (w :: ws) = true) :
     isSpace w = true := by
@@ -324,14 +802,16 @@ theorem Tail.noParen (t : Tail) (hok : t.ok = true) (hne : t ≠ .isTrue) (rest 
 
 /-! ### `lex_with_lhs` on a tail -/
 
-/-- **`ComparisonExpr::lex_with_lhs` on the text of a tail** -/
-theorem cmpWithLhs_tail {tight : Bool} (env : PEnv) (lhs : IExpr)
-    (hmec : mapEachCount lhs.indexes = 0) (t : Tail) (hok : t.ok = true) (rest : Input)
+/-- **`ComparisonExpr::lex_with_lhs` on the text of a tail**, for any left-hand side of the
+tail's type: with a `[*]` among the indexes the comparison is mapped over the elements and has
+type `Array(Bool)` -/
+theorem cmpWithLhs_tailG {tight : Bool} (env : PEnv) (lhs : IExpr) (t : Tail) (hok : t.ok = true)
+    (hsch : t.schemeOk env.scheme = true) (rest : Input)
     (hstop : Stop tight rest = true) :
     cmpWithLhs env lhs t.ty (t.txt ++ rest) =
-      .ok ({ node := .comparison lhs t.op, ty := .bool }, rest) := by
+      .ok ({ node := .comparison lhs t.op, ty := if mapEachCount lhs.indexes > 0 then .array .bool else .bool }, rest) := by
   cases t with
-  | isTrue => simpa [Tail.txt, Tail.ty, Tail.op] using cmpWithLhs_isTrue env lhs hmec rest
+  | isTrue => simpa [Tail.txt, Tail.ty, Tail.op] using cmpWithLhs_isTrueG env lhs rest
   | ord ws₁ op sym ws₂ l =>
     simp only [Tail.ok, Bool.and_eq_true] at hok
     obtain ⟨⟨h₁, h₂⟩, hlit⟩ := hok
@@ -341,7 +821,7 @@ theorem cmpWithLhs_tail {tight : Bool} (env : PEnv) (lhs : IExpr)
         ws₁ ++ ((ordAlias op sym).toList ++ (ws₂ ++ (l.txt ++ rest))) := by
       simp [Tail.txt, List.append_assoc]
     rw [e]
-    refine cmpWithLhs_ord_steps' env lhs hmec l.ty l.ty_cases op l.val _ _ _ _ rest
+    refine cmpWithLhs_ord_stepsG env lhs l.ty l.ty_cases op l.val _ _ _ _ rest
       (skipSpace_layout_solid h₁ ⟨c, cs ++ (ws₂ ++ (l.txt ++ rest)), by rw [hal]; rfl, hsp⟩)
       (lexEnum_ordAlias op sym _ ?_)
       (skipSpace_layout_solid h₂ ⟨d, ds ++ rest, by rw [hl]; rfl, (litStart_iff hd).1⟩)
@@ -364,7 +844,7 @@ theorem cmpWithLhs_tail {tight : Bool} (env : PEnv) (lhs : IExpr)
         ws₁ ++ ("in".toList ++ (ws₂ ++ ('{' :: (ws₀ ++ (itemsTxt items ++ '}' :: rest))))) := by
       simp [Tail.txt, List.append_assoc]
     rw [e]
-    exact cmpWithLhs_in_steps env lhs hmec (itemsVal items) _ _ _ _ rest
+    exact cmpWithLhs_in_stepsG env lhs (itemsVal items) _ _ _ _ rest
       (skipSpace_layout_solid h₁ ⟨'i', _, rfl, by decide⟩)
       (lexEnum_in _)
       (skipSpace_layout_solid h₂ ⟨'{', _, rfl, by decide⟩)
@@ -378,10 +858,75 @@ theorem cmpWithLhs_tail {tight : Bool} (env : PEnv) (lhs : IExpr)
         ws₁ ++ ("contains".toList ++ (ws₂ ++ (l.txt ++ rest))) := by
       simp [Tail.txt, List.append_assoc]
     rw [e]
-    exact cmpWithLhs_contains_steps env lhs hmec l.bytes _ _ _ _ rest
+    exact cmpWithLhs_contains_stepsG env lhs l.bytes _ _ _ _ rest
       (skipSpace_layout_solid h₁ ⟨'c', _, rfl, by decide⟩)
       (lexEnum_contains _)
       (skipSpace_layout_solid h₂ ⟨d, ds ++ rest, by rw [hl]; rfl, (litStart_iff hd).1⟩)
       (l.lexBytes hlit hty rest)
+  | inBytes ws₁ ws₂ ws₀ items =>
+    simp only [Tail.ok, Bool.and_eq_true] at hok
+    obtain ⟨⟨⟨⟨h₁, h₂⟩, h₀⟩, hitems⟩, hsep⟩ := hok
+    have e : (Tail.inBytes ws₁ ws₂ ws₀ items).txt ++ rest =
+        ws₁ ++ ("in".toList ++ (ws₂ ++ ('{' :: (ws₀ ++ (bytesItemsTxt items ++ '}' :: rest))))) := by
+      simp [Tail.txt, List.append_assoc]
+    rw [e]
+    exact cmpWithLhs_inBytes_stepsG env lhs (bytesItemsVal items) _ _ _ _ rest
+      (skipSpace_layout_solid h₁ ⟨'i', _, rfl, by decide⟩)
+      (lexEnum_in _)
+      (skipSpace_layout_solid h₂ ⟨'{', _, rfl, by decide⟩)
+      (by show stripPrefix ('{' :: _) ['$'] = none; simp [stripPrefix])
+      (lexBrace_bytesItems items hitems hsep h₀ rest)
+  | inIps ws₁ ws₂ ws₀ items =>
+    simp only [Tail.ok, Bool.and_eq_true] at hok
+    obtain ⟨⟨⟨⟨h₁, h₂⟩, h₀⟩, hitems⟩, hsep⟩ := hok
+    have e : (Tail.inIps ws₁ ws₂ ws₀ items).txt ++ rest =
+        ws₁ ++ ("in".toList ++ (ws₂ ++ ('{' :: (ws₀ ++ (ipItemsTxt items ++ '}' :: rest))))) := by
+      simp [Tail.txt, List.append_assoc]
+    rw [e]
+    exact cmpWithLhs_inIps_stepsG env lhs (ipItemsVal items) _ _ _ _ rest
+      (skipSpace_layout_solid h₁ ⟨'i', _, rfl, by decide⟩)
+      (lexEnum_in _)
+      (skipSpace_layout_solid h₂ ⟨'{', _, rfl, by decide⟩)
+      (by show stripPrefix ('{' :: _) ['$'] = none; simp [stripPrefix])
+      (lexBrace_ipItems items hitems hsep h₀ rest)
+  | bitAnd ws₁ sym ws₂ form v =>
+    simp only [Tail.ok, Bool.and_eq_true] at hok
+    obtain ⟨⟨⟨h₁, h₂⟩, hadm⟩, hi64⟩ := hok
+    obtain ⟨c, cs, hal, hsp, _, _, _⟩ := andAlias_head sym
+    obtain ⟨d, ds, hl, _, _, hd, _⟩ := renderInt_head form v
+    have e : (Tail.bitAnd ws₁ sym ws₂ form v).txt ++ rest =
+        ws₁ ++ ((andAlias sym).toList ++ (ws₂ ++ (renderInt form v ++ rest))) := by
+      simp [Tail.txt, List.append_assoc]
+    rw [e]
+    exact cmpWithLhs_bitAnd_stepsG env lhs v _ _ _ _ rest
+      (skipSpace_layout_solid h₁ ⟨c, cs ++ (ws₂ ++ (renderInt form v ++ rest)), by rw [hal]; rfl, hsp⟩)
+      (lexEnum_andAlias sym _)
+      (skipSpace_layout_solid h₂ ⟨d, ds ++ rest, by rw [hl]; rfl, hd⟩)
+      (lexInt_renderInt form v rest hadm hi64 (stop_noHex hstop) (fun _ _ => stop_noX hstop))
+  | inList ws₁ ws₂ ty l name =>
+    simp only [Tail.ok, Bool.and_eq_true, Bool.or_eq_true, beq_iff_eq] at hok
+    obtain ⟨⟨⟨h₁, h₂⟩, hname⟩, hty⟩ := hok
+    simp only [Tail.schemeOk, beq_iff_eq] at hsch
+    have e : (Tail.inList ws₁ ws₂ ty l name).txt ++ rest =
+        ws₁ ++ ("in".toList ++ (ws₂ ++ ('$' :: (name ++ rest)))) := by
+      simp [Tail.txt, List.append_assoc]
+    rw [e]
+    exact cmpWithLhs_inList_stepsG env lhs ty
+      (by rcases hty with (h | h) | h <;> simp [h]) l name _ _ _ _ (name ++ rest) rest
+      (skipSpace_layout_solid h₁ ⟨'i', _, rfl, by decide⟩)
+      (lexEnum_in _)
+      (skipSpace_layout_solid h₂ ⟨'$', _, rfl, by decide⟩)
+      (by show stripPrefix ('$' :: _) ['$'] = _; simp [stripPrefix])
+      (lexListName_name hname rest (stop_noListName hstop))
+      hsch
+
+/-- **`ComparisonExpr::lex_with_lhs` on the text of a tail** (no `[*]` on the left) -/
+theorem cmpWithLhs_tail {tight : Bool} (env : PEnv) (lhs : IExpr)
+    (hmec : mapEachCount lhs.indexes = 0) (t : Tail) (hok : t.ok = true)
+    (hsch : t.schemeOk env.scheme = true) (rest : Input)
+    (hstop : Stop tight rest = true) :
+    cmpWithLhs env lhs t.ty (t.txt ++ rest) =
+      .ok ({ node := .comparison lhs t.op, ty := .bool }, rest) := by
+  simpa [hmec] using cmpWithLhs_tailG (tight := tight) env lhs t hok hsch rest hstop
 
 end WfModel.Atoms
